@@ -28,7 +28,7 @@ def matrix(d):
 for pid in sorted(os.listdir(SRC)):
     if not re.match(r"C\d+$", pid):
         continue
-    for v in ("A", "B", "C", "D", "E", "F"):
+    for v in ("A", "B", "C", "D", "E", "F", "G", "H"):
         d = os.path.join(SRC, pid, v)
         cj = os.path.join(d, "confirm.json")
         if not (os.path.isfile(cj) and os.path.isfile(os.path.join(d, "patch.diff")) and os.path.isfile(os.path.join(d, "meta.json"))):
